@@ -95,7 +95,7 @@ class ContractMixin(CallMixin):
                     raise PathDone()
             return VNone()
         if name in ("ensures", "raises", "modifies", "returns", "invariant", "may_raise", "reads", "foreach",
-                    "bounded", "decreases", "shares"):
+                    "bounded", "decreases", "shares", "must_raise", "not_called"):
             label = None
             if "label" in kw:
                 label = pyconst(kw["label"])[1]
@@ -136,6 +136,14 @@ class ContractMixin(CallMixin):
                 return VBool(t_or(*[v.tag == i for i, (ty, a) in enumerate(v.alts)
                                     if (canon[i] if i in canon else self.pytype_name(st, a)) == tn]))
             return VBool(self.pytype_name(st, v) == tn)
+        if name == "call_result":
+            # the value an external (opaque) call returned on this path: lets a postcondition talk about
+            # "what the callee handed back" without assuming anything about it
+            ok, q = pyconst(args[0])
+            hits = [ev for ev in st.events if ev[0] == "call" and ev[1] == q and len(ev) > 3 and isinstance(ev[3], V)]
+            if len(hits) != 1:
+                raise Unsupported(f"call_result({q!r}): {len(hits)} calls on this path")
+            return hits[0][3]
         if name == "sameobj":
             a, b = args
             if not (isinstance(a, VRef) and isinstance(b, VRef)):
@@ -143,6 +151,15 @@ class ContractMixin(CallMixin):
             ca, cb = self.canon(st, a), self.canon(st, b)
             if ca.root == cb.root and (ca.path == cb.path or self.same_path(ca.path, cb.path)):
                 return VBool(True)
+            if ca.root == cb.root and len(ca.path) == len(cb.path) and all(
+                    k1 == k2 and (k1 != "f" or x1 == x2) for (k1, x1), (k2, x2) in zip(ca.path, cb.path)):
+                # two cells of the same container(s): in the tree-shaped heap model a cell holds its own object,
+                # so the objects are the same iff all keys / indices along the path are equal
+                eqs = []
+                for (k1, x1), (k2, x2) in zip(ca.path, cb.path):
+                    if k1 != "f":
+                        eqs.append(self.eq(st, x1, x2))
+                return VBool(t_and(*eqs))
             if ca.root.startswith("p:") and cb.root.startswith("p:"):
                 # two different access paths into the entry state: the heap model keeps them apart but cannot exclude
                 # that the caller passes the same object twice - neither answer may be assumed
@@ -303,10 +320,12 @@ class ContractMixin(CallMixin):
                 if qualname not in self.ctx.assumed:
                     self.ctx.assumed.append(qualname)
                 ty = self.schema.parse(spec) if spec else TNone()
-                st.events.append(("call", qualname, tuple(args), None))
                 if isinstance(ty, TNone):
+                    st.events.append(("call", qualname, tuple(args), None))
                     return VNone()
-                return self.fresh_of(st, ty, "ext_" + qualname.replace(".", "_").replace("<", "").replace(">", ""))
+                r = self.fresh_of(st, ty, "ext_" + qualname.replace(".", "_").replace("<", "").replace(">", ""))
+                st.events.append(("call", qualname, tuple(args), r))
+                return r
         raise Unsupported(f"call of {qualname} (no contract, not inlined, not declared external) at {self.where(node, st)}")
 
     def call_classattr(self, st, cls, name, args, kw, node):
@@ -435,6 +454,7 @@ class ContractMixin(CallMixin):
                         if c is None:
                             raise Unsupported("raises without when= at a call site")
                         if self.decide(st, c):
+                            st.events.append(("call", contract.qualname, tuple(args), "raised"))
                             self.do_raise(st, VExc(exc, ()))
                             raise PathDone()
                 for d in deferred:
@@ -442,6 +462,7 @@ class ContractMixin(CallMixin):
                         exc = d.node.args[0].id
                         flag = self.fresh(st, "raises_" + exc, z3.BoolSort())
                         if self.decide(st, flag):
+                            st.events.append(("call", contract.qualname, tuple(args), "raised"))
                             self.do_raise(st, VExc(exc, ()))
                             raise PathDone()
                 for d in deferred:
